@@ -38,6 +38,8 @@ package decoder
 //@   loop 1 decreases len(b) - offset
 //@ contract (*decoder.PathDecoder).hoverContentForLabel (d, i, block, bSchema) (content)
 //@   requires block != nil && bSchema != nil && 0 <= i && i < len(bSchema.Labels) && i < len(block.Labels)
+//@   ensures [C12,name:dependent-description-first] implies(labelSchema.IsDepKey && (result == schemahelper.LookupSuccessful || result == schemahelper.LookupPartiallySuccessful) && bs.HoverURL == "" && bs.Description.Value != "", endsWith(content.Value, "\n\n" + bs.Description.Value))
+//@   ensures [C12,name:static-description-otherwise] implies(labelSchema.IsDepKey && (result == schemahelper.LookupSuccessful || result == schemahelper.LookupPartiallySuccessful) && bs.HoverURL == "" && bs.Description.Value == "" && labelSchema.Description.Value != "", endsWith(content.Value, "\n\n" + labelSchema.Description.Value))
 
 // ---- C20: signature help. Contract of the visitor closure of SignatureAtPos (free variables d, pos,
 // ---- file, signature); hclsyntax.VisitAll is pre-order, so a deeper call overwrites an outer one.
@@ -253,7 +255,7 @@ package decoder
 // ---- its own path, or - for an origin into another path - that path's context and nothing else.
 //@ contract (*decoder.Decoder).ReferenceTargetsForOriginAtPos (d, path, file, pos) (result, err)
 //@   assert before (reference.Targets).Match#1 : [C11] implies(!typeis(origin, "reference.PathOrigin"), targetCtx == pathCtx && targetPath == path)
-//@   assert before (reference.Targets).Match#1 : [C11] implies(typeis(origin, "reference.PathOrigin"), targetPath == as(origin, "reference.PathOrigin").TargetPath)
+//@   assert before (reference.Targets).Match#1 : [C11,C02] implies(typeis(origin, "reference.PathOrigin"), targetPath == as(origin, "reference.PathOrigin").TargetPath)
 //@   assert before (reference.Targets).Match#1 : [C11] arg0 == targetCtx.ReferenceTargets
 
 // ---- C13/C10: like hover, tokens and origins of an object item come from the schema declared under that
@@ -286,3 +288,17 @@ package decoder
 //@   assert before decoder.newExpression#1 : [C13] arg1 == elemExpr && arg2 == tuple.cons.Elems[i]
 //@ contract (decoder.Tuple).ReferenceOrigins (tuple, ctx) (result)
 //@   assert before decoder.newExpression#1 : [C10] arg1 == elemExpr && arg2 == tuple.cons.Elems[i]
+
+// ---- C08: a function is offered where its RESULT converts to the expected type (not the other way round).
+//@ contract (decoder.functionExpr).matchingFunctions (fe, prefix, editRange) (result)
+//@   assert before convert.Convert#1 : [C08] arg0 == cty.UnknownVal(f.ReturnType) && arg1 == fe.returnType
+
+// ---- C09: the target of a map item extends the parent address by the item's key, and its range and
+// ---- definition range are the item's own extent and its key as written (quotes included).
+//@ contract (decoder.Map).ReferenceTargets (m, ctx, targetCtx) (result)
+//@   assert before invoke:ReferenceTargets#2 : [C09] extendsByOne(arg1.ParentAddress, targetCtx.ParentAddress) && typeis(arg1.ParentAddress[len(targetCtx.ParentAddress)], "lang.IndexStep") && as(arg1.ParentAddress[len(targetCtx.ParentAddress)], "lang.IndexStep").Key == cty.StringVal(keyName)
+//@   assert before invoke:ReferenceTargets#2 : [C09,C02] arg1.ParentDefRangePtr != nil && *arg1.ParentDefRangePtr == item.Key.Range() && arg1.ParentRangePtr != nil && *arg1.ParentRangePtr == hcl.RangeBetween(item.Key.Range(), item.Value.Range())
+//@ contract (decoder.Object).collectAttributeTargets (obj, ctx, targetCtx, declaredAttrs) (result)
+//@   assert before decoder.newExpression#1 : [C09] arg2 == obj.cons.Attributes[name].Constraint && implies(attrDeclared, arg1 == declaredAttrs[name].Value)
+//@   assert before invoke:ReferenceTargets#2 : [C09] extendsByOne(arg1.ParentAddress, targetCtx.ParentAddress)
+//@   assert before invoke:ReferenceTargets#2 : [C09,C02] implies(attrDeclared, arg1.ParentDefRangePtr != nil && *arg1.ParentDefRangePtr == item.Key.Range() && arg1.ParentRangePtr != nil && *arg1.ParentRangePtr == hcl.RangeBetween(item.Key.Range(), item.Value.Range()))
